@@ -328,5 +328,7 @@ def run_trace(spec, seed):
             sn["pre"] = pre
             if k in ("step", "solve"):
                 sn["post_term_cond"] = bool(s._termination(s)) if len(s._stepmon) else False
+            if k == "solve":
+                sn["stop_msg"] = s.Terminated(info=True) or None      # what the last Step of the loop returned
             rec.snaps.append(sn)
     return rec, s, prob
